@@ -33,45 +33,51 @@ package scheduler_util
 //@ define pqHas(q *PriorityQueue, x interface{}, n int) bool = exists j int :: 0 <= j && j < n && q.queue.items[j] == x
 
 //@ func NewPriorityQueue
-//@   props C03 C16 C05
+//@   props C03 C16 C05 C09
 //@   fresh
 //@   ensures result != nil && len(result.queue.items) == 0 && result.maxQueueSize == maxQueueSize && result.queue.lessFn == lessFn
+//@   ensures [freshBacking] fresh(result.queue.items)
 //@ end
 
 //@ func (*PriorityQueue).Empty
-//@   props C03 C16 C05
+//@   props C03 C16 C05 C09
 //@   requires q != nil
 //@   pure
 //@   ensures result == (len(q.queue.items) == 0)
 //@ end
 
 //@ func (*PriorityQueue).Len
-//@   props C03 C16 C05
+//@   props C03 C16 C05 C09
 //@   requires q != nil
 //@   pure
 //@   ensures result == len(q.queue.items)
 //@ end
 
 //@ func (*PriorityQueue).Push
-//@   props C03 C16 C05
+//@   props C03 C16 C05 C09
 //@   trusted
-//@   note container/heap (heap.Push / heap.Remove call back into the sort.Interface methods of priorityQueue) is external library code outside the subset; the contract states counts and membership only (heap.Push appends then sifts = permutation; heap.Remove(maxQueueSize) drops one element when the bound is exceeded). A maxQueueSize < -1 would make heap.Remove panic; not covered.
+//@   note container/heap (heap.Push / heap.Remove call back into the sort.Interface methods of priorityQueue) is external library code outside the subset; the contract states counts, membership and multiplicity only (heap.Push appends then sifts = permutation of old items plus `it`; heap.Remove(maxQueueSize) drops one element when the bound is exceeded). A maxQueueSize < -1 would make heap.Remove panic; not covered.
 //@   requires q != nil
 //@   modifies q.queue.items, q.queue.items[*]
 //@   ensures [lenUnbounded] q.maxQueueSize == QueueCapacityInfinite ==> len(q.queue.items) == old(len(q.queue.items)) + 1
 //@   ensures [lenBounded] q.maxQueueSize != QueueCapacityInfinite ==> len(q.queue.items) == ite(old(len(q.queue.items)) + 1 > q.maxQueueSize, old(len(q.queue.items)), old(len(q.queue.items)) + 1)
 //@   ensures [members] forall i int :: 0 <= i && i < len(q.queue.items) ==> q.queue.items[i] == it || (exists j int :: 0 <= j && j < old(len(q.queue.items)) && q.queue.items[i] == old(q.queue.items[j]))
 //@   ensures [pushedPresentUnbounded] q.maxQueueSize == QueueCapacityInfinite ==> pqHas(q, it, len(q.queue.items))
+//@   ensures [backing] fresh(q.queue.items) || samearray(q.queue.items, old(q.queue.items))
+//@   ensures [noNewDuplicates] forall i1 int, i2 int :: 0 <= i1 && i1 < i2 && i2 < len(q.queue.items) && q.queue.items[i1] == q.queue.items[i2] ==> (exists j1 int, j2 int :: 0 <= j1 && j1 < j2 && j2 < old(len(q.queue.items)) && old(q.queue.items[j1]) == q.queue.items[i1] && old(q.queue.items[j2]) == q.queue.items[i1]) || (q.queue.items[i1] == it && (exists j int :: 0 <= j && j < old(len(q.queue.items)) && old(q.queue.items[j]) == it))
 //@ end
 
 //@ func (*PriorityQueue).Pop
-//@   props C03 C16 C05
+//@   props C03 C16 C05 C09
 //@   trusted
-//@   note container/heap.Pop is external library code outside the subset (swaps first and last, sifts down, calls priorityQueue.Pop which drops the last element): counts and membership only, no ordering claim.
+//@   note container/heap.Pop is external library code outside the subset (swaps first and last, sifts down, calls priorityQueue.Pop which drops the last element): the new items are a permutation of the old items minus one occurrence of the result, in the same backing array; counts, membership and multiplicity only, no ordering claim.
 //@   requires q != nil
 //@   modifies q.queue.items, q.queue.items[*]
 //@   ensures [empty] old(len(q.queue.items)) == 0 ==> result == nil && len(q.queue.items) == 0
 //@   ensures [len] old(len(q.queue.items)) > 0 ==> len(q.queue.items) == old(len(q.queue.items)) - 1
 //@   ensures [resultWasMember] old(len(q.queue.items)) > 0 ==> (exists j int :: 0 <= j && j < old(len(q.queue.items)) && result == old(q.queue.items[j]))
 //@   ensures [members] forall i int :: 0 <= i && i < len(q.queue.items) ==> (exists j int :: 0 <= j && j < old(len(q.queue.items)) && q.queue.items[i] == old(q.queue.items[j]))
+//@   ensures [backing] samearray(q.queue.items, old(q.queue.items))
+//@   ensures [removedOnce] forall i int :: 0 <= i && i < len(q.queue.items) && q.queue.items[i] == result ==> (exists j1 int, j2 int :: 0 <= j1 && j1 < j2 && j2 < old(len(q.queue.items)) && old(q.queue.items[j1]) == result && old(q.queue.items[j2]) == result)
+//@   ensures [noNewDuplicates] forall i1 int, i2 int :: 0 <= i1 && i1 < i2 && i2 < len(q.queue.items) && q.queue.items[i1] == q.queue.items[i2] ==> (exists j1 int, j2 int :: 0 <= j1 && j1 < j2 && j2 < old(len(q.queue.items)) && old(q.queue.items[j1]) == q.queue.items[i1] && old(q.queue.items[j2]) == q.queue.items[i1])
 //@ end
